@@ -85,7 +85,8 @@ def r19a(ctx):
     ctx.floor("R19a", n, 1, "reflective primitive sites in expressions.py")
     # the type test that precedes the name test must reject non-identifiers (strings computed at run time)
     src = ast.unparse(gm.node).replace(" ", "")
-    if "ifnotisinstance(member,IdentifierToken):raise" in src.replace("\n", ""):
+    mp = func_params(gm.node)[1] if len(func_params(gm.node)) > 1 else "member"
+    if f"ifnotisinstance({mp},IdentifierToken):raise" in src.replace("\n", ""):
         ctx.proved("R19a", m.files[MOD], "get_member", gm.node, "member is an identifier token",
                    "non-identifier member operands are rejected before the name is read")
     else:
